@@ -58,4 +58,24 @@ Theorem served_is_stored : forall d ml url,
      ((e = ext_info \/ e = ext_mod) /\ find_file (entry_dot ++ e) a <> None \/ e = ext_zip)).
 Proof. intros d ml url. rewrite respond_eq. apply served_is_stored_pure. Qed.
 
+(* the central directory of the zip served for a stored version: one record per stored file whose
+   name does not start with ".", in archive order, named path@vers/name, with the CRC-32 and the
+   length of the stored data *)
+Theorem zip_central_directory : forall crc d ml p v ep ev a,
+  path_ok O p -> vers_ok O v -> allhex v = false ->
+  escape_string p = Some ep -> escape_string v = Some ev ->
+  stored O d p v = Some a ->
+  (forall f, In f (visible a) -> zip_entry_bad (zip_name p v (fst f)) (snd f) = false) ->
+  exists es, respond O d ml (file_url ep ev ext_zip) = OkZip es /\
+    central_directory crc es = map (fun f => cd_of crc (zip_name p v (fst f), snd f)) (visible a) /\
+    map cd_name (central_directory crc es) = map (fun f => zip_name p v (fst f)) (visible a) /\
+    map cd_size (central_directory crc es) = map (fun f => N.of_nat (length (snd f))) (visible a) /\
+    map cd_crc (central_directory crc es) = map (fun f => crc (snd f)) (visible a).
+Proof.
+  intros crc d ml p v ep ev a Hp Hv Hh Hep Hev Hst Hok.
+  destruct (serves_stored d ml p v ep ev a Hp Hv Hh Hep Hev Hst) as [_ [_ [_ H]]].
+  exists (zip_entries p v a). split; [apply H; exact Hok|].
+  unfold central_directory, zip_entries. rewrite !map_map. repeat split; reflexivity.
+Qed.
+
 End Theorems.
